@@ -125,12 +125,14 @@ def check_case(o):
                 have_ = np.asarray(rg.value, object).tolist()
                 if have_ != block(ar[0]):
                     probs.append(('operand-changed', {'operand': label, 'area': nb[0],
-                                                      'value_before': block(ar[0]), 'value_after': have_}))
+                                                      'value_before': repr(block(ar[0]))[:300],
+                                                      'value_after': repr(have_)[:300]}))
             else:
                 want_ = sorted(content(*c) for c in cells_of(rg.ranges))
-                if sorted(flat(rg.value)) != want_:
+                if sorted(map(repr, flat(rg.value))) != sorted(map(repr, want_)):
                     probs.append(('operand-changed', {'operand': label, 'areas': nb,
-                                                      'values_before': want_, 'values_after': sorted(flat(rg.value))}))
+                                                      'values_before': repr(want_)[:300],
+                                                      'values_after': repr(flat(rg.value))[:300]}))
         except BaseException as ex:  # noqa
             if isinstance(ex, (KeyboardInterrupt, SystemExit)):
                 raise
@@ -301,7 +303,9 @@ def _shard(args):
         if do_formula and i % 7 == 0:
             probs += formula_case(o)
             n += 1
-        out.append((o, n, probs))
+        # details may hold the library's own objects (error tokens, arrays): plain data only
+        probs = json.loads(json.dumps([list(p_) for p_ in probs], default=repr))
+        out.append((o, n, [tuple(p_) for p_ in probs]))
     return out
 
 
